@@ -611,7 +611,7 @@ C16_KINDS = ["verify", "validate", "serialise", "extract", "parse"]
 
 def _c16_cases(cases, tier):
     import random
-    out = [dict(mode="footprint", kind=k, origin=o) for k in C16_KINDS for o in ("parsed", "built", "protobuf")]
+    out = [dict(mode="footprint", kind=k, origin=o) for k in C16_KINDS for o in ("parsed", "built", "protobuf", "sparse")]
     combos = []
     seen = set()
     for c in cases:
@@ -693,7 +693,7 @@ CCEL_MEASURED = "{0, 1, 2}"   # cross-checked against the log itself at run time
 
 def _key_ccel(call, evs):
     i = call["input"]
-    return "v=%s,p=%s,f=%s,lvl=%s,ld=%s,cf=%s,prior=%s" % (i["v"], i["p"], i["f"], i["lvl"], i.get("ld"), i.get("cf"), i.get("prior", "none"))
+    return "v=%s,p=%s,f=%s,lvl=%s,ld=%s,cf=%s,prior=%s" % (i["v"], i["p"], i["f"], i["lvl"], i.get("ld"), i.get("cf"), i.get("prior", "none")) + (",lg=%s" % i["lg"] if i.get("lg", "sample") != "sample" else "")
 
 
 def _c18(prop, tier):
